@@ -20,7 +20,7 @@ func installHook(plan [][]int, m Mode, h *Hist) (remove func()) {
 		if point < 0 || point >= NumPoints {
 			return
 		}
-		if n := h.HookCounts[point].Add(1); point == scheduler.VerifLoopTop && n > h.loopBudget.Load()+h.NReports.Load() {
+		if n := h.HookCounts[point].Add(1); point == scheduler.VerifLoopTop && h.baseSched == 0 && n > h.loopBudget.Load()+h.NReports.Load() {
 			h.Livelock.Store(fmt.Sprintf("the Scheduler Loop iterated %d times; at most 3*jobs+1+reports = %d iterations can do work: it is spinning", n, 3*h.J+1+int(h.NReports.Load())))
 			runtime.Goexit() // stops the loop goroutine; its deferred calls release Wait
 		}
